@@ -3,7 +3,9 @@
 //! thread continues and, if it is another one, hands the baton over and sleeps.
 
 use std::collections::HashMap;
-use std::sync::{Arc, Condvar, Mutex, MutexGuard};
+use std::sync::atomic::{AtomicBool, AtomicU64, AtomicUsize, Ordering};
+use std::sync::{Arc, Mutex, MutexGuard};
+use std::time::{Duration, Instant};
 
 use honeycomb_core::stm::verif::{Hook, Kind};
 
@@ -87,9 +89,7 @@ pub struct Event {
 
 pub struct Run {
     st: Vec<St>,
-    current: Option<usize>,
     cur_tx: Vec<usize>,
-    exited: usize,
     pub steps: u64,
     pub max_steps: u64,
     pub preemptions: u32,
@@ -110,9 +110,27 @@ pub struct Run {
     vars: HashMap<usize, usize>,
 }
 
+const NOBODY: usize = usize::MAX;
+
+/// The baton is an atomic word; waiting threads spin, then yield, then sleep (a futex hand-off per
+/// step costs far more than the step itself on a loaded machine).
 pub struct Shared {
     m: Mutex<Run>,
-    cv: Condvar,
+    turn: AtomicUsize,
+    abort: AtomicBool,
+    exited: AtomicUsize,
+    progress: AtomicU64,
+}
+
+fn backoff(k: &mut u32) {
+    *k += 1;
+    if *k < 300 {
+        std::hint::spin_loop();
+    } else if *k < 3000 {
+        std::thread::yield_now();
+    } else {
+        std::thread::sleep(Duration::from_micros(100));
+    }
 }
 
 fn abort_unwind() -> ! {
@@ -123,9 +141,7 @@ impl Run {
     pub fn new(nthreads: usize, max_steps: u64, strategy: Strategy, trace: bool) -> Self {
         Run {
             st: vec![St::Ready; nthreads],
-            current: None,
             cur_tx: vec![0; nthreads],
-            exited: 0,
             steps: 0,
             max_steps,
             preemptions: 0,
@@ -243,7 +259,13 @@ impl Run {
 
 impl Shared {
     pub fn new(run: Run) -> Arc<Self> {
-        Arc::new(Shared { m: Mutex::new(run), cv: Condvar::new() })
+        Arc::new(Shared {
+            m: Mutex::new(run),
+            turn: AtomicUsize::new(NOBODY),
+            abort: AtomicBool::new(false),
+            exited: AtomicUsize::new(0),
+            progress: AtomicU64::new(0),
+        })
     }
 
     fn lock(&self) -> MutexGuard<'_, Run> {
@@ -251,29 +273,45 @@ impl Shared {
     }
 
     pub fn into_run(self: Arc<Self>) -> Run {
+        // the workers drop their handle right after `exit`
+        while Arc::strong_count(&self) > 1 {
+            std::hint::spin_loop();
+        }
         match Arc::try_unwrap(self) {
             Ok(s) => s.m.into_inner().unwrap_or_else(std::sync::PoisonError::into_inner),
             Err(_) => panic!("scheduler still shared"),
         }
     }
 
+    /// tear the run down: every waiting thread wakes up and unwinds
     fn fail(&self, mut g: MutexGuard<'_, Run>, why: &'static str) {
         if g.abort.is_none() {
             g.abort = Some(why);
         }
-        g.current = None;
-        self.cv.notify_all();
+        drop(g);
+        self.abort.store(true, Ordering::SeqCst);
+        self.turn.store(NOBODY, Ordering::SeqCst);
+    }
+
+    /// sleep until the baton comes (true) or the run is torn down (false)
+    fn wait_turn(&self, tid: usize) -> bool {
+        let mut k = 0;
+        loop {
+            if self.abort.load(Ordering::SeqCst) {
+                return false;
+            }
+            if self.turn.load(Ordering::SeqCst) == tid {
+                return true;
+            }
+            backoff(&mut k);
+        }
     }
 
     /// hand the baton to `next` and sleep until it comes back; unwinds if the run is torn down
-    fn switch_and_wait(&self, mut g: MutexGuard<'_, Run>, tid: usize, next: usize) {
-        g.current = Some(next);
-        self.cv.notify_all();
-        while g.current != Some(tid) && g.abort.is_none() {
-            g = self.cv.wait(g).unwrap_or_else(std::sync::PoisonError::into_inner);
-        }
-        if g.abort.is_some() {
-            drop(g);
+    fn switch_and_wait(&self, g: MutexGuard<'_, Run>, tid: usize, next: usize) {
+        drop(g);
+        self.turn.store(next, Ordering::SeqCst);
+        if !self.wait_turn(tid) {
             abort_unwind();
         }
     }
@@ -283,8 +321,8 @@ impl Shared {
         let mut g = self.lock();
         match g.decide(None) {
             Some(t) => {
-                g.current = Some(t);
-                self.cv.notify_all();
+                drop(g);
+                self.turn.store(t, Ordering::SeqCst);
             }
             None => self.fail(g, "deadlock"),
         }
@@ -292,24 +330,16 @@ impl Shared {
 
     /// main thread: wait until every worker has left; `Err(())` = no progress for `stall_secs` (a worker spins without reaching a yield point)
     pub fn wait_all(&self, nthreads: usize, stall_secs: u64) -> Result<(), ()> {
-        let mut g = self.lock();
-        let mut last = (g.steps, g.exited);
-        let mut idle = 0u64;
-        while g.exited < nthreads {
-            let (g2, to) = self
-                .cv
-                .wait_timeout(g, std::time::Duration::from_millis(500))
-                .unwrap_or_else(std::sync::PoisonError::into_inner);
-            g = g2;
-            if to.timed_out() {
-                if (g.steps, g.exited) == last {
-                    idle += 1;
-                    if idle >= 2 * stall_secs {
-                        return Err(());
-                    }
-                } else {
-                    idle = 0;
-                    last = (g.steps, g.exited);
+        let mut k = 0;
+        let mut last = (self.progress.load(Ordering::Relaxed), Instant::now());
+        while self.exited.load(Ordering::SeqCst) < nthreads {
+            backoff(&mut k);
+            if k > 3000 && k % 1000 == 0 {
+                let p = self.progress.load(Ordering::Relaxed);
+                if p != last.0 {
+                    last = (p, Instant::now());
+                } else if last.1.elapsed() > Duration::from_secs(stall_secs) {
+                    return Err(());
                 }
             }
         }
@@ -318,11 +348,7 @@ impl Shared {
 
     /// worker: wait for the first turn; false = the run was torn down before
     pub fn start(&self, tid: usize) -> bool {
-        let mut g = self.lock();
-        while g.current != Some(tid) && g.abort.is_none() {
-            g = self.cv.wait(g).unwrap_or_else(std::sync::PoisonError::into_inner);
-        }
-        g.abort.is_none()
+        self.wait_turn(tid)
     }
 
     pub fn set_tx(&self, tid: usize, k: usize) {
@@ -330,35 +356,35 @@ impl Shared {
     }
 
     pub fn aborted(&self) -> bool {
-        self.lock().abort.is_some()
+        self.abort.load(Ordering::SeqCst)
     }
 
     /// worker: all transactions done (or unwound)
     pub fn finish(&self, tid: usize) {
         let mut g = self.lock();
         g.st[tid] = St::Done;
-        if g.abort.is_none() && g.current == Some(tid) {
+        if g.abort.is_none() && self.turn.load(Ordering::SeqCst) == tid {
             if g.st.iter().all(|s| *s == St::Done) {
-                g.current = None;
+                drop(g);
+                self.turn.store(NOBODY, Ordering::SeqCst);
             } else {
                 match g.decide(Some(tid)) {
-                    Some(n) => g.current = Some(n),
+                    Some(n) => {
+                        drop(g);
+                        self.turn.store(n, Ordering::SeqCst);
+                    }
                     None => {
                         let why = g.abort.unwrap_or("deadlock");
-                        g.abort = Some(why);
-                        g.current = None;
+                        self.fail(g, why);
                     }
                 }
             }
         }
-        self.cv.notify_all();
     }
 
     /// worker: the thread is gone (after `finish`)
     pub fn exit(&self) {
-        let mut g = self.lock();
-        g.exited += 1;
-        self.cv.notify_all();
+        self.exited.fetch_add(1, Ordering::SeqCst);
     }
 }
 
@@ -371,11 +397,11 @@ impl Hook for ThreadHook {
     fn event(&self, kind: Kind, key: usize) {
         let tid = self.tid;
         let sh = &*self.sh;
-        let mut g = sh.lock();
-        if g.abort.is_some() {
-            drop(g);
+        if sh.abort.load(Ordering::SeqCst) {
             abort_unwind();
         }
+        sh.progress.fetch_add(1, Ordering::Relaxed);
+        let mut g = sh.lock();
         if g.trace.is_some() {
             let nv = g.vars.len();
             let var = match kind {
